@@ -10,9 +10,11 @@ import (
 	"testing"
 	"time"
 
+	"github.com/cenkalti/backoff/v4"
 	"github.com/gebn/bmc"
 
 	"github.com/gebn/bmc/pkg/ipmi"
+	"github.com/google/gopacket"
 	"pgregory.net/rapid"
 
 	"verif/harness/evid"
@@ -238,6 +240,136 @@ func TestRandomCommands(t *testing.T) {
 		}
 	})
 }
+
+// failingReq is a request layer that cannot be serialised.
+type failingReq struct{}
+
+func (failingReq) LayerType() gopacket.LayerType { return gopacket.LayerTypePayload }
+func (failingReq) SerializeTo(gopacket.SerializeBuffer, gopacket.SerializeOptions) error {
+	return fmt.Errorf("this request cannot be serialised")
+}
+
+type unserialisable struct{ ipmi.GetDeviceIDCmd }
+
+func (*unserialisable) Request() gopacket.SerializableLayer { return failingReq{} }
+
+// TestUnserialisableRequest: a command whose request cannot be put on the wire
+// (Set Session Privilege Level = Callback, which the request layer refuses, and
+// a caller-defined command whose request layer returns an error) is not sent and
+// is not a success: the call returns an error without any transmission, inside
+// and outside a session, and the connection keeps working afterwards.
+func TestUnserialisableRequest(t *testing.T) {
+	for i, suite := range hx.Suites12() {
+		c := hx.Creds{User: "admin", Password: []byte("pw"), Priv: 4, Suite: suite, Seed: uint64(ev.Seed)*19 + uint64(i)}
+		w := hx.NewWorldFor(c, true)
+		s, err := w.T.NewV2Session(context.Background(), c.Opts())
+		if err != nil {
+			t.Fatalf("harness: %v", err)
+		}
+		for _, inSession := range []bool{true, false} {
+			for _, cmd := range []ipmi.Command{&ipmi.SetSessionPrivilegeLevelCmd{Req: ipmi.SetSessionPrivilegeLevelReq{PrivilegeLevel: ipmi.PrivilegeLevelCallback}}, &unserialisable{}} {
+				var cn conn = w.T
+				if inSession {
+					cn = s
+				}
+				before := w.Net.Sends
+				ctx, cancel := w.Ctx(3)
+				code, err := cn.SendCommand(ctx, cmd)
+				cancel()
+				ev.Eval()
+				cs := map[string]any{"inSession": inSession, "command": cmd.Name(), "suite": suite.String()}
+				if err == nil {
+					msg := fmt.Sprintf("SendCommand returned code %#x and a nil error for a request that cannot be serialised (%d transmissions)", uint8(code), w.Net.Sends-before)
+					ev.Violation("TestUnserialisableRequest", cs, msg)
+					t.Fatalf("%v: %s", cs, msg)
+				}
+				if w.Net.Sends != before {
+					msg := fmt.Sprintf("%d datagrams were transmitted for a request that cannot be serialised", w.Net.Sends-before)
+					ev.Violation("TestUnserialisableRequest", cs, msg)
+					t.Fatalf("%v: %s", cs, msg)
+				}
+				// and the next command is unaffected
+				if msg := runOn(w, cn, map[bool]*simbmc.Session{true: w.BMC.ActiveSession()}[inSession], inSession, "GetDeviceID", []hx.Outcome{hx.Busy, hx.Final}, i, hx.FinalCCValue); msg != "" {
+					ev.Violation("TestUnserialisableRequest", cs, "the command after it: "+msg)
+					t.Fatalf("%v: the command after it: %s", cs, msg)
+				}
+				w.BMC.Intercept = nil
+				ev.NonTrivial(fmt.Sprintf("unserialisable|%v|%s|%v", inSession, cmd.Name(), suite))
+			}
+		}
+	}
+	ev.Label("unserialisable-request")
+}
+
+// TestRetryBudgetPerCommand: the connection's back-off policy has a budget (the
+// library's own gives up after 15 minutes of retrying; here: after three
+// retries) that is counted per command: every command, handshake payload and
+// in-session command that is answered with three temporary codes / lost replies
+// and then normally must succeed, however many commands came before it.
+func TestRetryBudgetPerCommand(t *testing.T) {
+	for i, suite := range hx.Suites9() {
+		c := hx.Creds{User: "admin", Password: []byte("pw"), Priv: 4, Suite: suite, Seed: uint64(ev.Seed)*23 + uint64(i)}
+		w := hx.NewWorldBackOff(c.Seed, true, backoff.WithMaxRetries(&backoff.ZeroBackOff{}, 3))
+		c.Install(w.BMC)
+		// every first three transmissions of a payload / command are not answered usefully
+		seen := map[string]int{}
+		w.BMC.Intercept = func(b *simbmc.BMC, rx *simbmc.Rx) {
+			if rx.Pkt == nil || len(rx.Replies) == 0 {
+				return
+			}
+			k := fmt.Sprintf("%d/%d", rx.Pkt.PayloadType, len(w.BMC.Log))
+			if rx.Msg != nil {
+				k = fmt.Sprintf("ipmi/%x/%x/%d", rx.Msg.NetFn, rx.Msg.Cmd, seenCmd)
+			} else {
+				k = fmt.Sprintf("payload/%d/%d", rx.Pkt.PayloadType, seenCmd)
+			}
+			seen[k]++
+			if seen[k] <= 3 {
+				if rx.Msg != nil && !rx.Msg.IsResponse() {
+					var s *simbmc.Session
+					if rx.Pkt.SessionID != 0 {
+						s = rx.Sess
+					}
+					rx.Replies = []memnet.Out{b.Wrap(s, b.ResponseFor(rx.Msg, 0xC0, nil).Bytes())}
+				} else {
+					rx.Replies = nil // a lost reply to a session-setup payload
+				}
+			}
+		}
+		step := func(name string, f func(ctx context.Context) error) {
+			seenCmd++
+			before := w.Net.Sends
+			err := f(context.Background())
+			ev.Eval()
+			if err != nil {
+				msg := fmt.Sprintf("%s (step %d on this connection) failed after %d transmissions although the fourth transmission of each request was answered normally: %v", name, seenCmd, w.Net.Sends-before, err)
+				ev.Violation("TestRetryBudgetPerCommand", map[string]any{"suite": suite.String(), "step": name}, msg)
+				t.Fatalf("%s", msg)
+			}
+			ev.NonTrivial(fmt.Sprintf("budget|%v|%s", suite, name))
+		}
+		var sess *bmc.V2Session
+		step("Get System GUID", func(ctx context.Context) error { _, err := w.T.GetSystemGUID(ctx); return err })
+		step("Get Channel Authentication Capabilities", func(ctx context.Context) error {
+			_, err := w.T.GetChannelAuthenticationCapabilities(ctx, &ipmi.GetChannelAuthenticationCapabilitiesReq{ExtendedData: true, Channel: ipmi.ChannelPresentInterface, MaxPrivilegeLevel: ipmi.PrivilegeLevelAdministrator})
+			return err
+		})
+		step("session handshake", func(ctx context.Context) error {
+			var err error
+			sess, err = w.T.NewV2Session(ctx, c.Opts())
+			return err
+		})
+		for k := 0; k < 3; k++ {
+			step(fmt.Sprintf("in-session Get Device ID #%d", k+1), func(ctx context.Context) error { _, err := sess.GetDeviceID(ctx); return err })
+			step(fmt.Sprintf("session-less Get System GUID #%d", k+2), func(ctx context.Context) error { _, err := w.T.GetSystemGUID(ctx); return err })
+		}
+		// (Close Session is left out: the simulated BMC closes the session when it
+		// handles the first transmission, whatever reply the harness substitutes)
+	}
+	ev.Label("retry-budget-per-command")
+}
+
+var seenCmd int
 
 // TestCommandSequences: several commands one after the other on the same
 // connection and the same session, each with its own outcome script; each is
@@ -740,6 +872,6 @@ func TestUDPInSessionLostReply(t *testing.T) {
 }
 
 func TestCoverage(t *testing.T) {
-	ev.RequireLabels(t, 1, "sequence:in-session-command-after-a-transport-failure")
+	ev.RequireLabels(t, 1, "sequence:in-session-command-after-a-transport-failure", "unserialisable-request", "retry-budget-per-command")
 	ev.RequireLabels(t, 1, "enumeration-complete", "every-final-code", "handshake-enumeration-complete", "retried:inSession=true", "retried:inSession=false", "retried:handshake", "retried:udp", "retried:udp-undecodable", "udp:in-session-lost-reply")
 }
